@@ -1,10 +1,12 @@
 (* Dispatch from a property number to its correspondence check (one entry point for extraction). *)
 From GoSST Require Import Base.Bytes Base.Sx.
-From GoSST Require Corr.C16 Corr.C14 Corr.C04 Corr.C12 Corr.C20 Corr.SST Corr.DB Corr.Crash Corr.Buf.
+From GoSST Require Corr.C16 Corr.C14 Corr.C04 Corr.C12 Corr.C20 Corr.SST Corr.DB Corr.Crash Corr.Buf Corr.Life.
 
 Definition check_by_id (id : N) (s : sx) : bool :=
   match id with
-  | 1%N | 6%N | 17%N => DB.DBC.check_sx s
+  | 1%N | 6%N => DB.DBC.check_sx s
+  (* C17: database programs, and call sequences over the life cycle of one handle *)
+  | 17%N => if Life.LIFE.is_life s then Life.LIFE.check_sx s else DB.DBC.check_sx s
   | 3%N => SST.SSTC.check_sx 3 s
   | 7%N => DB.C07.check_sx s
   | 2%N | 10%N => Crash.CRC.check_sx s
